@@ -17,7 +17,11 @@
                                the group after a removed one is skipped this round and the
                                last one is reported twice
    Model regression only (never the code as found):
-     "group_ignores_source_ip" groups are told apart by neighbour and class only         *)
+     "group_ignores_source_ip" groups are told apart by neighbour and class only
+     "stale_group_kept"        (the code as found) the quiet timer only fires when NO source has knocked for the
+                               quiet period; a group whose own last probe is older than the removal limit by then
+                               (another source kept knocking meanwhile: Age) is reported but not removed, and is
+                               reported again at every later tick                            *)
 EXTENDS Integers, Sequences, FiniteSets, TLC
 
 CONSTANTS Sources, Deviations,
@@ -42,9 +46,14 @@ Probe(p) ==
      ELSE LET pp == [proto |-> p.proto, port |-> p.port]
               idx == { i \in 1..Len(groups) : /\ groups[i].class = Class(p) /\ groups[i].via = Via[p.src]
                                                /\ (groups[i].src = p.src \/ "group_ignores_source_ip" \in Deviations) } IN
-          IF idx = {} THEN groups' = Append(groups, [src |-> p.src, via |-> Via[p.src], class |-> Class(p), kind |-> p.proto, ports |-> <<pp>>])
+          IF idx = {} THEN groups' = Append(groups, [src |-> p.src, via |-> Via[p.src], class |-> Class(p), kind |-> p.proto, ports |-> <<pp>>, stale |-> FALSE])
           ELSE LET i == CHOOSE i \in idx : TRUE IN
-               groups' = [groups EXCEPT ![i].ports = AddPort(groups[i], pp)]
+               groups' = [groups EXCEPT ![i].ports = AddPort(groups[i], pp), ![i].stale = FALSE]
+
+\* a long time passes for group i while the timer cannot fire (other sources keep knocking)
+Age(i) == /\ i \in 1..Len(groups) /\ ~groups[i].stale
+          /\ groups' = [groups EXCEPT ![i].stale = TRUE]
+          /\ UNCHANGED <<reports, sent>>
 
 \* the quiet timer fires: report and remove
 RECURSIVE Walk(_, _, _)
@@ -58,12 +67,13 @@ Tick ==
        THEN LET seen == Walk(groups, 1, <<>>) IN
             /\ reports' = reports \o seen
             /\ groups' = SelectSeq(groups, LAMBDA g : ~\E k \in 1..Len(seen) : seen[k] = g)
-       ELSE reports' = reports \o groups /\ groups' = <<>>
+       ELSE /\ reports' = reports \o groups
+            /\ groups' = IF "stale_group_kept" \in Deviations THEN SelectSeq(groups, LAMBDA g : g.stale) ELSE <<>>
   /\ sent' = sent
 
 Next == (\E s \in Sources, pr \in {"tcp", "udp", "icmp"}, po \in {0, 1000, 1001} :
             (pr = "icmp" <=> po = 0) /\ Probe([src |-> s, proto |-> pr, port |-> po]))
-        \/ Tick
+        \/ Tick \/ (\E i \in 1..Len(groups) : Age(i))
 
 \* ---- properties (evaluated when everything has been reported) ----------------------------
 Quiet == groups = <<>>
